@@ -206,6 +206,20 @@ pub fn eval(ctx: &Ctx, case: &Case) {
                         let w = if f.ends_with("0)") { vec![0u8; 384] } else { sm9::f12_bytes(&sm9::f12_one()) };
                         hh = sm9::h2(&msg, &w);
                     }
+                    f2 if f2.starts_with("S=degenerate") => {
+                        // S=degenerate(x,y)/h=H2(M||w): off-curve points with a zero coordinate make every line value lie in a
+                        // subfield; if the pairing then collapses to a constant w (0, 1), h = H2(M || w) verifies for everybody
+                        let (xy, hw) = f2["S=degenerate".len()..].split_once('/').unwrap();
+                        let (dx, dy) = match xy {
+                            "(0,0)" => (BigUint::zero(), BigUint::zero()),
+                            "(0,1)" => (BigUint::zero(), BigUint::one()),
+                            "(1,0)" => (BigUint::one(), BigUint::zero()),
+                            _ => panic!("unknown degenerate point"),
+                        };
+                        ss = lib_g1_raw(&dx, &dy);
+                        let w = if hw.ends_with("0)") { vec![0u8; 384] } else { sm9::f12_bytes(&sm9::f12_one()) };
+                        hh = sm9::h2(&msg, &w);
+                    }
                     "S=off-curve(y+1)" => ss = lib_g1_raw(&sx, &((&sy + 1u32) % &pr.p)),
                     "S=off-curve(x+1)" => ss = lib_g1_raw(&((&sx + 1u32) % &pr.p), &sy),
                     "S=(0,0)" => ss = lib_g1_raw(&BigUint::zero(), &BigUint::zero()),
@@ -343,7 +357,7 @@ pub fn run(ctx: &Arc<Ctx>) {
         }
     }
     let nbase = ctx.tier.pick(4usize, 48);
-    let mut forges: Vec<String> = vec!["none", "rerandomised-S", "public-only-verifier/ks=0", "public-only-verifier/ks=1", "public-only-verifier/ks=seed", "h=0", "h=1", "h=N-1", "h=N", "h=N+1", "h=2^256-1", "h+N", "S=-S", "S=2S", "S=P1", "S=ds", "S=infinity", "S=infinity/h=H2(M||0)", "S=infinity/h=H2(M||1)", "S=off-curve(y+1)", "S=off-curve(x+1)", "S=(0,0)", "msg-bitflip", "msg-extended", "id-changed", "other-master-public-key"].iter().map(|s| s.to_string()).collect();
+    let mut forges: Vec<String> = vec!["none", "rerandomised-S", "public-only-verifier/ks=0", "public-only-verifier/ks=1", "public-only-verifier/ks=seed", "h=0", "h=1", "h=N-1", "h=N", "h=N+1", "h=2^256-1", "h+N", "S=-S", "S=2S", "S=P1", "S=ds", "S=infinity", "S=infinity/h=H2(M||0)", "S=infinity/h=H2(M||1)", "S=off-curve(y+1)", "S=off-curve(x+1)", "S=(0,0)", "S=degenerate(0,0)/h=H2(M||0)", "S=degenerate(0,0)/h=H2(M||1)", "S=degenerate(0,1)/h=H2(M||0)", "S=degenerate(0,1)/h=H2(M||1)", "S=degenerate(1,0)/h=H2(M||0)", "S=degenerate(1,0)/h=H2(M||1)", "msg-bitflip", "msg-extended", "id-changed", "other-master-public-key"].iter().map(|s| s.to_string()).collect();
     for b in 0..256 {
         forges.push(format!("h-bit:{}", b));
     }
